@@ -66,7 +66,24 @@ CONFIG_RULE = (
 )
 PROPS["C16"] = {"rule": CONFIG_RULE, "trusted_base": CONFIG_TB, "assumptions": ["the Lean model is tied to the Rust code by differential execution, not by translation"], "needs_bin": True}
 
+PROPS["C18"] = {
+    "rule": "(1) the real UniqueNamer (src/bin/utils/namer.rs compiled into the harness via #[path]) on a real directory vs the Lean model: every request sequence up to length 4 over {a, a-1, b} x every subset of pre-existing {a, a-1, a-2, b}, plus seeded longer sequences; "
+            "(2) oracle-only end-to-end runs of the binary: 1-3 documents (identical file names in different directories, Markdown or Cram) x outcome class {pass, fail, timeout, skip, parse error, killed} x mode {default, --work-directory, --keep-temporary-directories, missing shell}: pwd/env probes written by the tests, TMPDIR and user directory listings afterwards; three concurrent scrut processes. "
+            "non-trivial = namer case with at least two requests (e2e cases are counted as evaluations only)",
+    "trusted_base": [KERNEL, "the theorem statements being a faithful reading of the (partial) property", CORR,
+                     "hand-written model lean/ScrutModel/Model/Namer.lean of UniqueNamer::next_name (counter loop with explicit fuel; termination of the Rust loop on an infinite set of existing names is not claimed)",
+                     "tempfile::TempDir (creation, uniqueness, removal on Drop), Drop order in `scrut test`, the OS file system, bash: exercised end-to-end, not proved", RUSTC],
+    "assumptions": ["directory removal is Rust Drop semantics of tempfile::TempDir; it is observed, not proved", "e2e observations are taken through files the tests write into a probe directory"],
+    "needs_bin": True,
+}
+
 MANIFEST_TEXT = {
+    "C18": {
+        "text": "PARTIAL. Machine-checked: for any sequence of requested directory names and any disk state, UniqueNamer hands out pairwise distinct names that were not handed out before and do not exist on disk (C18_names_distinct, C18_next_free). Not provable in this family and therefore exercised on every run against the built binary: one working directory per document shared by its test cases and by no other document, the documented variables (TESTDIR, TESTFILE, TESTSHELL, TMPDIR, LANG, LANGUAGE, LC_ALL, TZ, COLUMNS, CDPATH, GREP_OPTIONS, SCRUT_TEST=<path>:<line>) in every test case, nothing left in TMPDIR after success / failure / timeout / skip / parse error / killed shell / missing shell, --work-directory kept and its inner temp directory removed, --keep-temporary-directories leaving exactly execution.*/temp.*, three scrut processes at once. One known finding: under --work-directory all documents share the user's directory (documented behaviour of the flag).",
+        "design_ref": "DESIGN.md §6 C18",
+        "note": "Partial: only the namer bookkeeping is a theorem; TempDir/Drop/OS behaviour is observed end-to-end (oracle-only streams). SCRUT_TEST per test case is also checked in-process by the C05/C14 scripted-runner stream.",
+        "technique": "Lean 4 theorem on the namer model + correspondence with the real namer source + e2e observation of directories and environment",
+    },
     "C05": {
         "text": "Machine-checked theorems over the model of validate / executor / result mapping: validate = ok iff an exit code was produced, equals the expected one and the configured stream is accepted (C05_succeeds_iff); wrong code reported regardless of output; no exit code => never succeeded; and for every runner behaviour a test case is reported succeeded only if the runner was really called for it and returned the expected code (C05_succeeded_only_if_ran: nothing after an aborted execution passes). Tie to code: exhaustive validate table, exhaustive scripted status sequences through the real StatefulExecutor, end-to-end runs with real bash (exit N, kill -9 $$, timeouts, detached).",
         "design_ref": "DESIGN.md §6 C05",
